@@ -126,8 +126,30 @@ pub fn gen_program(w: &mut Rng, o: &FdOpts) -> Program {
     let mut vis: Vec<VarIx> = vars.clone();
     w.shuffle(&mut vis);
     vis.truncate(nvis);
-    let qterm = match w.below(4) {
+    let qterm = match w.below(6) {
         0 if nvis == 1 => T::V(vis[0]),
+        4 | 5 if nvis >= 2 => {
+            // compound term of FD variables, on its own or as a list element / around a list
+            let mut items: Vec<T> = vis.iter().map(|v| T::V(*v)).collect();
+            let b = items.pop().unwrap();
+            let a = items.pop().unwrap();
+            let kind = w.below(2) as u8;
+            match w.below(3) {
+                0 => {
+                    items.push(T::cmp(kind, a, b));
+                    if items.len() == 1 {
+                        items.pop().unwrap()
+                    } else {
+                        T::list(items)
+                    }
+                }
+                1 => T::cmp(kind, T::list(vec![a]), T::list({
+                    items.push(b);
+                    items
+                })),
+                _ => T::cmp(kind, a, T::cmp(1 - kind, b, T::list(items))),
+            }
+        }
         1 => {
             // nested list
             let mut items: Vec<T> = vis.iter().map(|v| T::V(*v)).collect();
@@ -173,6 +195,7 @@ pub enum Val {
     B(bool),
     Nil,
     Cons(Box<Val>, Box<Val>),
+    Cmp(u8, Box<Val>, Box<Val>),
 }
 
 fn eval_term(t: &T, asg: &BTreeMap<VarIx, i64>) -> Option<Val> {
@@ -183,6 +206,7 @@ fn eval_term(t: &T, asg: &BTreeMap<VarIx, i64>) -> Option<Val> {
         T::B(b) => Some(Val::B(*b)),
         T::Nil => Some(Val::Nil),
         T::Cons(h, tl) => Some(Val::Cons(Box::new(eval_term(h, asg)?), Box::new(eval_term(tl, asg)?))),
+        T::Cmp(k, a, b) => Some(Val::Cmp(*k, Box::new(eval_term(a, asg)?), Box::new(eval_term(b, asg)?))),
         T::Any(_) => None,
     }
 }
@@ -472,6 +496,7 @@ pub fn val_of_answer(t: &T) -> Option<Val> {
         T::B(b) => Some(Val::B(*b)),
         T::Nil => Some(Val::Nil),
         T::Cons(h, tl) => Some(Val::Cons(Box::new(val_of_answer(h)?), Box::new(val_of_answer(tl)?))),
+        T::Cmp(k, a, b) => Some(Val::Cmp(*k, Box::new(val_of_answer(a)?), Box::new(val_of_answer(b)?))),
         T::V(_) | T::Any(_) => None,
     }
 }
@@ -484,6 +509,7 @@ pub fn show_val(v: &Val) -> String {
             Val::B(b) => T::B(*b),
             Val::Nil => T::Nil,
             Val::Cons(h, t) => T::cons(to_t(h), to_t(t)),
+            Val::Cmp(k, a, b) => T::cmp(*k, to_t(a), to_t(b)),
         }
     }
     to_t(v).show()
